@@ -29,6 +29,7 @@ var (
 	doSched  = flag.String("sched", "", "comma separated package suffixes to apply sync/chan rewriting to")
 	doMaps   = flag.String("maps", "", "comma separated package suffixes to apply map range rewriting to")
 	repoRoot = flag.String("repo", "/repo", "repo root")
+	extraDir = flag.String("extra", "", "dir with files to add to repo packages (name: path with __ for /)")
 )
 
 type stats struct {
@@ -94,11 +95,19 @@ func main() {
 	for _, s := range shims {
 		overlay[filepath.Join(*repoRoot, "homescript/vsched", filepath.Base(s))] = s
 	}
+	nExtra := 0
+	if *extraDir != "" {
+		extras, _ := filepath.Glob(filepath.Join(*extraDir, "*.go"))
+		for _, s := range extras {
+			overlay[filepath.Join(*repoRoot, strings.ReplaceAll(filepath.Base(s), "__", "/"))] = s
+			nExtra++
+		}
+	}
 	b, _ := json.MarshalIndent(map[string]any{"Replace": overlay}, "", " ")
 	os.WriteFile(filepath.Join(*outDir, "overlay.json"), b, 0o644)
-	sb, _ := json.MarshalIndent(map[string]any{"sites": st.Sites, "unsupported": st.Unsupported, "files": len(overlay) - len(shims)}, "", " ")
+	sb, _ := json.MarshalIndent(map[string]any{"sites": st.Sites, "unsupported": st.Unsupported, "files": len(overlay) - len(shims) - nExtra}, "", " ")
 	os.WriteFile(filepath.Join(*outDir, "sites.json"), sb, 0o644)
-	fmt.Printf("rewritten files: %d, sites: %d, unsupported: %d\n", len(overlay)-len(shims), len(st.Sites), len(st.Unsupported))
+	fmt.Printf("rewritten files: %d, sites: %d, unsupported: %d\n", len(overlay)-len(shims)-nExtra, len(st.Sites), len(st.Unsupported))
 	for _, u := range st.Unsupported {
 		fmt.Println("UNSUPPORTED", u)
 	}
